@@ -20,7 +20,15 @@
 (*                   a stall can hit before each: "stall" (no head yet),   *)
 (*                   "stallbody" (head sent, body missing or cut short),   *)
 (*                   "stalltrail" (head and message sent, no grpc-status   *)
-(*                   trailer).  RespPhase(d) is how far the reply got.     *)
+(*                   trailer), or the reply is cut off after its head      *)
+(*                   ("rstbody": the stream is reset while the body is     *)
+(*                   read).  RespPhase(d) is how far the reply got.        *)
+(*  configuration    transport (HTTP/JSON, HTTP/protobuf, gRPC), gzip, the *)
+(*                   configured signals, with / without a resource, with / *)
+(*                   without custom headers, the builder entry point: the  *)
+(*                   rules here do not depend on any of them, so they are  *)
+(*                   crossed with the scenarios when these are run; the    *)
+(*                   level-A monitor checks what each request must carry.  *)
 (*                                                                         *)
 (* DoublePop = TRUE is the send loop as found in the repository (defect    *)
 (* F7: `requests.pop()` on success and again after the match).             *)
@@ -68,7 +76,7 @@ view == <<size, limit, flushAt, hpc, nEmitted, queue, qSize, qWatch, batch, bWat
 \* (stall before the head, connection dropped); "head" - the response head arrived (a status
 \* reply, or a reply that stalls in a later phase: the request timeout still covers reading
 \* the body and the trailers).  HttpConnection puts its sender back as soon as there is a head.
-RespPhase(d) == IF d \in {"reject", "stallbody", "stalltrail"} THEN "head" ELSE "none"
+RespPhase(d) == IF d \in {"reject", "stallbody", "stalltrail", "rstbody"} THEN "head" ELSE "none"
 
 Last(s) == s[Len(s)]
 Front(s) == SubSeq(s, 1, Len(s) - 1)
